@@ -16,8 +16,11 @@ def lst(xs):
 def alphabet(c, full=True, copyable=True):
     """mutating operations on object 0 of capacity c (object 1 exists, object 2 is free);
     the state of every written object is printed after each step, so read-only operations need no place here"""
-    A = ["eb,0,%d" % v for v in ((1, 2, 3) if full else (1,))]
+    A = ["eb,0,%d" % v for v in ((1, 2) if full else (1,))]
     A += ["im,0,2"]
+    # no arguments: a value-initialised element T() is appended / inserted (must be T() after ANY history: erase,
+    # pop_back, refused operations, assignment from a shorter vector, re-assigned moved-from objects)
+    A += ["ebd,0", "emd,0,0"] + (["emd,0,%d" % c] if full and c > 0 else [])
     if copyable:
         A += ["in,0,1", "pb,0,3"]
     A += ["em,0,%d,%d" % (p, v) for p in range(c + 1) for v in ((1, 2) if full else (2,))]
@@ -43,11 +46,24 @@ def exhaustive(variant, caps, depth, full):
 def small_alphabet_cases(variant, caps, depth):
     """deeper sequences over a reduced alphabet that still contains every kind of operation"""
     for c in caps:
-        A = ["eb,0,1"] + ["em,0,%d,2" % p for p in range(c + 1)] + ["po,0"] + ["er,0,%d" % p for p in range(c + 1)]
-        A += ["pr,0,31", "ir,0,%d,12" % min(1, c), "cp,2,0", "as,0,1", "mv,2,0"]
+        A = ["eb,0,1", "ebd,0"] + ["em,0,%d,2" % p for p in range(c + 1)] + ["po,0"] + ["er,0,%d" % p for p in range(c + 1)]
+        A += ["pr,0,31", "ir,0,%d,12" % min(1, c), "as,0,1", "mv,2,0"]
         pre = "%s n,0,%d nl,1,12" % (variant, c)
         for s in itertools.product(A, repeat=depth):
             yield pre + " " + " ".join(s)
+
+
+def before_begin_cases(variant, caps):
+    """erase / emplace / range insert at begin()-1 and begin()-2 (for an empty vector also end()-1, end()-2) from every state
+    that two operations of the (reduced) alphabet reach, followed by two ordinary operations"""
+    copyable = variant in "CT"
+    B = ["erb,0,1", "erb,0,2", "emb,0,1,7", "emb,0,2,7"] + (["irb,0,1,7", "irb,0,2,78", "irb,0,1,_"] if copyable else [])
+    for c in caps:
+        A = alphabet(c, False, copyable)
+        pre = "%s n,0,%d %s" % (variant, c, "nl,1,12" if copyable else "n,1,2 eb,1,1 eb,1,2")
+        for s in itertools.product(A, repeat=2):
+            for b in B:
+                yield "%s %s %s eb,0,9 er,0,0" % (pre, " ".join(s), b)
 
 
 def alias_alphabet(c):
@@ -147,10 +163,18 @@ class Ref:
         c, l = o[i]["cap"], o[i]["l"]
         if name in ("at", "get"):
             return "D" if a[1] < len(l) else "R"
-        if name in ("eb", "in", "im", "pb"):
+        if name in ("eb", "in", "im", "pb", "ebd"):
             if len(l) >= c:
                 return "R"
-            l.append(a[1]); return "D"
+            l.append(a[1] if name != "ebd" else 0); return "D"
+        if name in ("erb", "emb", "irb"):
+            return "R" if 1 <= a[1] <= 4 else "NA"
+        if name == "emd":
+            if a[1] > c:
+                return "NA"
+            if len(l) >= c or a[1] > len(l):
+                return "R"
+            l.insert(a[1], 0); return "D"
         if name == "em":
             if a[1] > c:
                 return "NA"
@@ -214,7 +238,7 @@ def fmt(name, a, xs=None, plan=None):
     return s
 
 
-LISTY = ("nf", "nl", "la", "ir", "il", "pr")
+LISTY = ("nf", "nl", "la", "ir", "il", "pr", "irb")
 
 
 def random_case(rng, length, variant=None, malformed=0.03):
@@ -231,7 +255,7 @@ def random_case(rng, length, variant=None, malformed=0.03):
         xs = [rng.randint(1, 9) for _ in range(rng.choice([0, 1, 1, 2, 2, 3, 4, 5]))]
         if bad:
             name = rng.choice(["n", "nf", "nl", "cp", "mv", "as", "ma", "la", "at", "get", "em", "eb", "in", "im", "pb", "ir", "il", "pr", "po", "er", "de",
-                               "ea", "ba", "ia", "pa"])
+                               "ea", "ba", "ia", "pa", "ebd", "emd", "erb", "emb", "irb"])
         elif st is None or (st["mf"] and rng.random() < 0.8):
             # (re)create / assign
             cands = ["n"] + (["nf", "nl", "cp"] if copyable else []) + ["mv"]
@@ -239,9 +263,9 @@ def random_case(rng, length, variant=None, malformed=0.03):
                 cands += ["ma"] + (["as", "la"] if copyable else [])
             name = rng.choice(cands)
         else:
-            cands = ["eb"] * 4 + ["im", "em", "em", "po", "er", "er", "at", "get", "mv", "ma", "n", "de"] + \
+            cands = ["eb"] * 4 + ["im", "em", "em", "po", "er", "er", "at", "get", "mv", "ma", "n", "de", "ebd", "ebd", "emd", "erb", "emb"] + \
                     (["in", "pb", "pr", "pr", "ir", "il", "cp", "as", "la", "nf", "nl",
-                      "ea", "ea", "ea", "ba", "ia", "pa"] if copyable else [])
+                      "ea", "ea", "ea", "ba", "ia", "pa", "irb"] if copyable else [])
             name = rng.choice(cands)
         size = len(st["l"]) if st else 0
         cap = st["cap"] if st else 0
@@ -251,7 +275,7 @@ def random_case(rng, length, variant=None, malformed=0.03):
             a = [i, rng.choice([0, 1, 2, 3, 4, 5])]
             if not bad and rng.random() < 0.8:
                 xs = xs[: a[1]]
-        elif name in ("nl", "la", "pr", "po", "de"):
+        elif name in ("nl", "la", "pr", "po", "de", "ebd"):
             a = [i]
             if name == "pr" and not bad and rng.random() < 0.7:
                 xs = xs[: max(0, cap - size)]
@@ -272,6 +296,14 @@ def random_case(rng, length, variant=None, malformed=0.03):
                 xs = xs[: max(0, cap - pos)]
         elif name == "er":
             a = [i, rng.randrange(size) if size and rng.random() < 0.8 else rng.randint(0, cap + 1)]
+        elif name == "emd":
+            a = [i, rng.randint(0, size) if rng.random() < 0.8 else rng.randint(0, cap + 1)]
+        elif name == "erb":
+            a = [i, rng.choice([1, 1, 2, 3]) if not bad else rng.choice([0, 5])]
+        elif name == "emb":
+            a = [i, rng.choice([1, 1, 2]), val]
+        elif name == "irb":
+            a = [i, rng.choice([1, 1, 2])]
         elif name == "ea":
             a = [i, rng.randint(0, size) if rng.random() < 0.85 else rng.randint(0, cap + 1),
                  rng.randrange(size) if size and rng.random() < 0.9 else rng.randint(0, cap + 1)]
@@ -291,7 +323,7 @@ def random_case(rng, length, variant=None, malformed=0.03):
         has_list = name in LISTY
         ops.append(fmt(name, a, xs if has_list else None, plan))
         # follow the reference only when the step is certainly executed without fault; otherwise stop tracking precisely
-        if plan is None and all(x < NPOOL for x in a[:1]) and (copyable or name not in ("nf", "nl", "cp", "as", "la", "in", "pb", "ir", "il", "pr", "ea", "ba", "ia", "pa", "sr", "ps")) \
+        if plan is None and all(x < NPOOL for x in a[:1]) and (copyable or name not in ("nf", "nl", "cp", "as", "la", "in", "pb", "ir", "il", "pr", "ea", "ba", "ia", "pa", "sr", "ps", "irb")) \
                 and not (name in ("cp", "mv", "as", "ma") and a[1] >= NPOOL) and not (name in ("nl", "la", "il") and len(xs) > 5) \
                 and not (name == "get" and a[1] > 5):
             ref.step(name, a, xs)
@@ -315,6 +347,8 @@ def malformed_cases():
     yield "C ea,0,0,0 n,0,2 ea,0,0,0 ba,0,0 eb,0,1 ea,0,0,1 ea,0,0,2 ea,0,3,0 ba,0,1 ea,3,0,0"
     yield "M n,0,2 eb,0,1 ea,0,0,0 ba,0,0 ia,0,0 pa,0,0 ma,0,0 eb,0,2 n,0,1"
     yield "C n,0,2 eb,0,1 ma,0,0 eb,0,2 at,0,0 as,0,0 eb,0,2 as,0,0 ea,0,0,0"
+    yield "C erb,0,1 emb,0,1,1 irb,0,1,1 ebd,0 emd,0,0 n,0,1 erb,0,0 erb,0,5 emb,0,0,1 irb,0,9,1 emd,0,2 ebd,0 ebd,0 erb,3,1 mv,1,0 erb,0,1 ebd,0"
+    yield "M n,0,1 irb,0,1,1 erb,0,1 emb,0,4,1 ebd,0 emd,0,0"
 
 
 class VecCheck(Check):
